@@ -26,7 +26,7 @@
 import Driver.Proto
 import FcModel.Spec.C05
 import FcModel.VtkAppendix
-namespace Fc.Drv
+namespace Fc.Drv.C05
 open Fc
 
 def hexDigit (c : Char) : Option Nat :=
@@ -220,4 +220,7 @@ def handleC05 (op : String) : Option (P String) :=
   | "c05fallback" => some opFallback
   | _ => none
 
-end Fc.Drv
+end Fc.Drv.C05
+
+/-- re-export for Driver/Main.lean -/
+def Fc.Drv.handleC05 := Fc.Drv.C05.handleC05
